@@ -430,6 +430,8 @@ def load_replay(ctx):
         c._drop_last = True
     if k.get("wspec"):
         c.wspec = k["wspec"]
+    if k.get("use"):
+        c.use = k["use"]
     c.group = "replay"
     ctx.log("replay of %s: %s env %s argv %s (signature %s)" % (os.path.basename(ctx.replay), c.pers, c.env, c.argv(),
                                                              rp.get("signature")))
@@ -654,6 +656,96 @@ def detect_variant(real, moddir):
         rc, out, _ = real.run("dsh", ["-L", "-g", "x", "-M", "B"], {"PDSH_MODULE_DIR": moddir}, user=1000)
         early = active_misc(out) == "B"
     return "".join("1" if b else "0" for b in (d4, d5, at, dopt, wuser, early))
+
+
+# --------------------------------------------------------------------------- the settings where they take effect
+USE_SCRIPTS = {
+    "rec.sh": "#!/bin/sh\n# rec.sh DIR USER HOST: the user this target is contacted with\nprintf '%s' \"$2\" > \"$1/user.$3\"\n",
+    "conc.sh": "#!/bin/sh\n# conc.sh DIR RANK LIFE_MS: how many commands run at the same time\nd=$1; n=$2; life=$3\n: > \"$d/run.$n\"\n"
+               "max=0; i=0\nwhile [ $i -lt $life ]; do\n  c=$(ls \"$d\" | grep -c '^run\\.')\n  [ \"$c\" -gt \"$max\" ] && max=$c\n"
+               "  sleep 0.05; i=$((i+50))\ndone\necho $max > \"$d/peak.$n\"\nrm -f \"$d/run.$n\"\n",
+    "tmo.sh": "#!/bin/sh\n# tmo.sh DIR RANK SECONDS: is a command of that length cut short\n: > \"$1/start.$2\"\nsleep $3\n: > \"$1/end.$2\"\n",
+}
+TMO_SHORT, TMO_LONG, TMO_SLEEP = 1, 9, "2.5"
+
+
+def own_users(c):
+    """[(host, the user the target names itself | None)] of the -w words of a case (plain names, no brackets)"""
+    out = []
+    for l, v in c.opts:
+        if l != "w":
+            continue
+        for piece in v.split(","):
+            rest = piece.split(":", 1)[1] if ":" in piece else piece
+            us, host = rest.split("@", 1) if "@" in rest else (None, rest)
+            out.append((host, us))
+    return out
+
+
+def gen_use_cases(real, rng, quick):
+    """real runs through exec that show each setting WHERE IT TAKES EFFECT: the user every target is contacted with
+    (exec's %u) for every order of -l / -R / -w words with and without `type:` and `user@` prefixes; the number of
+    commands running at the same time for every source of the fanout; whether a command is cut short for every source
+    of the command time-out.  Returns (cases, permutation groups)."""
+    cases, groups = [], []
+    L, L2, R = ("l", "bar"), ("l", "baz"), ("R", "exec")
+    sets = [([L, ("w", "exec:h1")], {}), ([L, R, ("w", "h2")], {}), ([L, ("w", "exec:h1"), ("w", "exec:u2@h3")], {}),
+            ([L, R, ("w", "h2"), ("w", "u4@h4")], {}), ([R, ("w", "exec:h1"), ("w", "h2")], {}),
+            ([L, ("w", "h2")], {"PDSH_RCMD_TYPE": "exec"}), ([L, ("w", "exec:h1,exec:h5")], {}),
+            ([L, R, ("w", "exec:h1,h2,exec:u2@h3,u4@h4")], {}), ([L, ("w", "exec:h1"), ("f", "2"), ("N", None)], {}),
+            ([L, L2, ("w", "exec:h1")], {}), ([R, ("w", "exec:u9@h9,exec:h1"), L], {})]
+    for opts, env in sets:
+        grp = []
+        for perm in itertools.permutations(opts):
+            c = Case("dsh", list(perm), dict(env), [], kind="use")
+            c.use, c.group = "user", "use"
+            grp.append(c)
+        if len({l for l, _ in opts if l in "lR"}) == len([l for l, _ in opts if l in "lR"]):
+            groups.append(grp)
+        cases += grp
+    # fanout in use: more targets than the fanout allows, commands that live long enough to overlap
+    for opts, env in (([("f", "2")], {}), ([], {"FANOUT": "3"}), ([("f", "2")], {"FANOUT": "3"}), ([("f", "3")], {"FANOUT": "2"}),
+                      ([("f", "3"), ("f", "2")], {}), ([("f", "2"), ("S", None)], {"FANOUT": "1"})):
+        for front in (True, False):
+            base = [R, ("w", "h[0-6]")]
+            c = Case("dsh", (opts + base) if front else (base + opts), dict(env), [], kind="use")
+            c.use, c.group = "fanout", "use"
+            cases.append(c)
+    # command time-out in use
+    for opts, env in (([("u", "1")], {}), ([], {"PDSH_COMMAND_TIMEOUT": "1"}), ([("u", "9")], {"PDSH_COMMAND_TIMEOUT": "1"}),
+                      ([("u", "1")], {"PDSH_COMMAND_TIMEOUT": "9"}), ([], {}), ([("u", "9"), ("u", "1")], {}), ([("u", "1"), ("u", "9")], {})):
+        for front in ((True, False) if opts else (True,)):
+            base = [R, ("w", "h[0-1]")]
+            c = Case("dsh", (opts + base) if front else (base + opts), dict(env), [], kind="use")
+            c.use, c.group = "timeout", "use"
+            cases.append(c)
+    return cases, groups
+
+
+def run_use_case(real, ctx, c, i, life=500):
+    d = os.path.join(ctx.scratch, "c18use_%d_%d" % (i, life))
+    os.makedirs(d, exist_ok=True)
+    sdir = os.path.join(ctx.scratch, "c18use_scripts")
+    if c.use == "user":
+        c.operands = [os.path.join(sdir, "rec.sh"), d, "%u", "%h"]
+    elif c.use == "fanout":
+        c.operands = [os.path.join(sdir, "conc.sh"), d, "%n", str(life)]
+    else:
+        c.operands = [os.path.join(sdir, "tmo.sh"), d, "%n", TMO_SLEEP]
+    rc, out, err_ = real.run("dsh", c.argv(), c.env, timeout=40)
+    obs = {}
+    if c.use == "user":
+        for f in os.listdir(d):
+            if f.startswith("user."):
+                obs[f[5:]] = open(os.path.join(d, f)).read()
+    elif c.use == "fanout":
+        peaks = [int(open(os.path.join(d, f)).read().strip() or 0) for f in os.listdir(d) if f.startswith("peak.")]
+        obs = {"peak": max(peaks) if peaks else 0, "finished": len(peaks)}
+    else:
+        obs = {"started": len([f for f in os.listdir(d) if f.startswith("start.")]),
+               "ended": len([f for f in os.listdir(d) if f.startswith("end.")])}
+    return rc, out, err_, obs
+
 
 
 # --------------------------------------------------------------------------- main
@@ -1103,10 +1195,78 @@ def run(ctx):
                 for clause in sp.split(" "):
                     ctx.offender(clause, "real run: clause `%s` violated: env %s argv %s -> %s" % (clause, c.env, a, want),
                                  dict(case, clause=clause))
+        # (U) the settings where they take effect
+        os.makedirs(os.path.join(ctx.scratch, "c18use_scripts"), exist_ok=True)
+        for name, text in USE_SCRIPTS.items():
+            sp_ = os.path.join(ctx.scratch, "c18use_scripts", name)
+            open(sp_, "w").write(text)
+            os.chmod(sp_, 0o755)
+        ucases, ugroups = gen_use_cases(real, rng, quick)
+        if rp_case is not None:
+            ucases, ugroups = ([rp_case] if rp_kind == "use" else []), []
+        with concurrent.futures.ThreadPoolExecutor(max_workers=8) as ex:
+            ures = list(ex.map(lambda ic: run_use_case(real, ctx, ic[1], ic[0]), enumerate(ucases)))
+        umod = ctx.model("opt", "".join(model_line(real, c, c.argv()) + "\n" for c in ucases), args=["model", bits])
+        for i, (c, m) in enumerate(zip(ucases, umod)):
+            rc, out, err_, obs = ures[i]
+            if c.use == "fanout" and rc == 0 and m.startswith("ok ") and obs.get("peak") != int(m.split(" ")[1]):
+                # fewer (or more) overlapping commands than the fanout in force: once more with longer-lived commands before
+                # it is reported (a loaded machine starts the commands further apart)
+                ures[i] = run_use_case(real, ctx, c, i, life=2000)
+        uspec_in = []
+        for c, (rc, out, err_, obs) in zip(ucases, ures):
+            base = spec_line(real, c, None, rank)
+            if c.use == "user":
+                for host, own in own_users(c):
+                    uspec_in.append((c, host, base + (" uown=" + hx(own) if own is not None else "") + " uobs=" + hx(obs.get(host, "\x00not-contacted"))))
+            elif c.use == "fanout":
+                uspec_in.append((c, None, base + " peak=%d" % obs["peak"]))
+            else:
+                uspec_in.append((c, None, base + " cut=%d short=%d long=%d" % (1 if obs["ended"] < obs["started"] or not obs["started"] else 0,
+                                                                               TMO_SHORT, TMO_LONG)))
+        uspec = ctx.model("opt", "".join(l + "\n" for _, _, l in uspec_in), args=["spec"])
+        seen_case = set()
+        for (c, host, line), sp in zip(uspec_in, uspec):
+            i = ucases.index(c)
+            rc, out, err_, obs = ures[i]
+            a = c.argv()
+            case = case_record(ctx, c, a, rc, err_, "use", use=c.use, observed=obs)
+            if id(c) not in seen_case:
+                seen_case.add(id(c))
+                cov["evaluations"] += 1
+                dist["use_" + c.use] = dist.get("use_" + c.use, 0) + 1
+                distinct.add(("use", tuple(sorted(c.env.items())), tuple(a)))
+                want = "hang" if rc is None else "exit %d" % rc
+                got = ("exit 0" if "term=1" in umod[i].split(" ") else "hang") if umod[i].startswith("ok ") else umod[i]
+                if got != want:
+                    ctx.disagreement("opt model vs pdsh -R exec run (settings in use)", "impl `%s` model `%s`" % (want, umod[i]), case)
+                if rc is not None and rc < 0:
+                    ctx.offender("crash", "pdsh killed by signal %d" % -rc, case)
+            if rc != 0:
+                continue
+            if sp != "ok":
+                for clause in sp.split(" "):
+                    what = {"user": "target %s was contacted as user %r" % (host, obs.get(host, "<not contacted>")),
+                            "fanout": "%s commands ran at the same time" % obs.get("peak"),
+                            "timeout": "%s of %s commands of %s s ran to their end" % (obs.get("ended"), obs.get("started"), TMO_SLEEP)}[c.use]
+                    ctx.offender(clause, "setting not in force where it takes effect: clause `%s`: env %s argv %s: %s"
+                                 % (clause, c.env, a[:-4] + ["..."], what), dict(case, clause=clause, host=host))
+        # every order of the same options: every target is contacted as the same user
+        upos = {id(c): i for i, c in enumerate(ucases)}
+        for grp in ugroups:
+            outs = {}
+            for c in grp:
+                rc, out, err_, obs = ures[upos[id(c)]]
+                outs.setdefault((rc, tuple(sorted(obs.items()))), c)
+            if len(outs) > 1:
+                (k1, c1), (k2, c2) = list(outs.items())[:2]
+                ctx.offender("order-dependent:in-use", "the same options in another order contact the targets as other users: %s -> %s, "
+                             "%s -> %s" % (c1.argv()[:-4], dict(k1[1]), c2.argv()[:-4], dict(k2[1])),
+                             case_record(ctx, c2, c2.argv(), k2[0], b"", "use", use="user", observed=dict(k2[1])))
         cov["distinct_nontrivial"] = len(distinct)
         # ---- what the run hit: every option letter / variable of the table GENERATED from opt.c, the diagnostics ----
         if rp_case is None:
-            groups = [(cases, res), (rcases, rres)]
+            groups = [(cases, res), (rcases, rres), (ucases, [(r[0], r[1], r[2]) for r in ures])]
             if moddir:
                 groups += [(mcases, mres), (qcases, qres)]
             hit = {"dsh": set(), "pdcp": set(), "rpdcp": set()}
